@@ -51,6 +51,8 @@ class Outcomes(object):
         if self.force is not None:
             r = self.force(a)
             if r is not None:
+                if len(r) > 2 and r[2]:
+                    return r[0], r[1]  # exactly this result, even None
                 return r[0], (r[1] if r[1] is not None else {"v": 1, "id": ident})
         if ident in self.overrides:
             s, r = self.overrides[ident]
